@@ -58,6 +58,9 @@ def gen_cases(tier: str, seed: int) -> List[Dict[str, Any]]:
                       "backend": "aot_eager", "mults": [round(loguniform(rng, 0.25, 4), 3) for _ in steps],
                       "cons": [rng.choice([None, "gmean", "to_output_scale", "to_grad_input_scale", "hmean"]) for _ in steps],
                       "seed": derive_seed(seed, PROPERTY, "comp", i) % (2**31)})
+        if cases[-1]["loss"] is None and rng.random() < 0.3:
+            # the compiled region ENDS in residual_split (both outputs escape the graph), or Dynamo breaks the graph right after it
+            cases[-1]["tail"] = rng.choice(["split", "split+break"])
     if not q:
         for i in range(200):
             rng = rng_for(seed, PROPERTY, "ind", i)
@@ -76,6 +79,8 @@ def gen_cases(tier: str, seed: int) -> List[Dict[str, Any]]:
                 cases.append({"kind": "comp", "steps": steps, "loss": rng.choice([None, "mse"]), "dtype": rng.choice(["float32", "float64", "bfloat16"]),
                               "backend": "inductor", "mults": [round(loguniform(rng, 0.25, 4), 3) for _ in steps],
                               "cons": [rng.choice([None, "gmean", "to_output_scale"]) for _ in steps], "seed": derive_seed(seed, PROPERTY, "ind", i) % (2**31)})
+                if cases[-1]["loss"] is None and rng.random() < 0.3:
+                    cases[-1]["tail"] = rng.choice(["split", "split+break"])
     return cases
 
 
@@ -132,6 +137,47 @@ def _compiled_ok(ctx, torch) -> bool:
         ctx.count("compiled:graphs-captured", n)
         return True
     return False
+
+
+def _inductor_merges_identical_outputs(state, torch) -> bool:
+    """Environment self-test, pure PyTorch (no unit_scaling code): two DIFFERENT custom autograd Functions whose forward values
+    coincide (f * X with f == 1) applied to one intermediate and both returned from an Inductor-compiled function. PyTorch 2.x's
+    Inductor returns ONE buffer for both outputs and the tangents are mis-routed: the input gradient differs from eager and from
+    aot_eager. Where this PyTorch defect is present, compiled regions that end in U.residual_split cannot be judged under
+    Inductor (they are judged under aot_eager)."""
+    if "inductor_merge_bug" in state:
+        return state["inductor_merge_bug"]
+
+    class SG(torch.autograd.Function):
+        @staticmethod
+        def forward(ctx, X, f, b):
+            ctx.save_for_backward(torch.tensor(b, dtype=X.dtype))
+            return f * X
+
+        @staticmethod
+        def backward(ctx, g):
+            (b,) = ctx.saved_tensors
+            return b * g, None, None
+
+    def f(x):
+        h = torch.tanh(x)
+        return SG.apply(h, 1.0, 0.25), SG.apply(h, 1.0, 2.0)
+
+    res = []
+    for be in (None, "inductor"):
+        x = torch.linspace(-1, 1, 24, dtype=torch.float64).reshape(4, 6).requires_grad_(True)
+        g1, g2 = torch.full((4, 6), 1.0, dtype=torch.float64), torch.full((4, 6), -3.0, dtype=torch.float64)
+        try:
+            fn = f if be is None else torch.compile(f, backend=be)
+            r, s = fn(x)
+            (gx,) = torch.autograd.grad([r, s], [x], [g1, g2])
+            res.append(gx)
+        except Exception:
+            res.append(None)
+        torch._dynamo.reset()
+    bug = res[1] is None or not bool(torch.allclose(res[0], res[1], rtol=1e-9, atol=1e-12))
+    state["inductor_merge_bug"] = bug
+    return bug
 
 
 def run_fn(case, ctx) -> None:
@@ -388,6 +434,12 @@ def build_comp(case, torch):
                     h = U.conv1d(h.transpose(1, 2), w.unsqueeze(-1).repeat(1, 1, 3), b, padding=1, constraint=c).transpose(1, 2)
                 else:
                     h = self.mods[i](h)
+            if case.get("tail") == "split":
+                return U.residual_split(h, mults[0])
+            if case.get("tail") == "split+break":
+                r, sk = U.residual_split(h, mults[0])
+                torch._dynamo.graph_break()
+                return U.residual_add(U.gelu(r), sk, mults[0])
             if case["loss"] == "mse":
                 return U.mse_loss(h, target)
             if case["loss"] == "ce":
@@ -420,16 +472,25 @@ def run_comp(case, ctx) -> None:
     elif case["loss"] == "ce":
         tgt = torch.randint(0, 7, (B * S,), generator=g)
     key = f"C20:composition:{backend}"
-    sig = "+".join(case["steps"]) + f"|{case['loss']}"
+    sig = "+".join(case["steps"]) + f"|{case['loss']}" + (f"|tail={case['tail']}" if case.get("tail") else "")
+    if case.get("tail"):
+        ctx.count("form:region-ends-in-residual_split" if case["tail"] == "split" else "form:graph-break-right-after-residual_split")
+        if backend == "inductor" and _inductor_merges_identical_outputs(ctx.state, torch):
+            # PyTorch defect, reproduced at run time WITHOUT the library (see the function): not judged
+            ctx.count("excluded:inductor-merges-value-identical-outputs-of-custom-functions(PyTorch)")
+            ctx.skip("Inductor merges value-identical outputs of distinct custom autograd Functions (PyTorch defect, reproduced without the library)")
+            return
 
     def run(mod):
         xi = x.detach().clone().requires_grad_(True)
         torch.manual_seed(0)
         y = mod(xi, tgt) if tgt is not None else mod(xi)
-        up = torch.randn(y.shape, generator=torch.Generator().manual_seed(case["seed"] + 2), dtype=torch.float64).to(y.dtype)
+        ys = list(y) if isinstance(y, (tuple, list)) else [y]
+        gu = torch.Generator().manual_seed(case["seed"] + 2)
+        ups = [torch.randn(t.shape, generator=gu, dtype=torch.float64).to(t.dtype) for t in ys]
         ps = [p for p in mod.parameters()]
-        gr = torch.autograd.grad(y, [xi] + ps, up, allow_unused=True)
-        return y, gr
+        gr = torch.autograd.grad(ys, [xi] + ps, ups, allow_unused=True)
+        return (y if len(ys) == 1 and not isinstance(y, (tuple, list)) else torch.cat([t.reshape(-1) for t in ys])), gr
 
     try:
         ye, ge = run(m)
@@ -497,7 +558,7 @@ def run_comp(case, ctx) -> None:
         ctx.violation(f"{key}:gradient-differs-from-eager", f"{bad_g} for {sig}", steps=case["steps"], dtype=case["dtype"], cons=case["cons"])
     ctx.nontrivial(f"{sig}|{case['dtype']}|{backend}|{case['cons']}")
     # ---- the library's leaf-wrapping tracer: outputs and gradients ------------------------------------
-    if backend == "aot_eager" and tgt is None and not any(s.startswith("residual") for s in case["steps"]):
+    if backend == "aot_eager" and tgt is None and not case.get("tail") and not any(s.startswith("residual") for s in case["steps"]):
         m3 = copy.deepcopy(m)
         try:
             tracer = UT._DeepTracer()
